@@ -48,7 +48,8 @@ def run(ctx, replay):
                      "graphical reports may pick survivors heuristically: for -dot only invariance, no-dangling, residual marking and accounting are demanded",
                      "ties in the active sort order may be broken either way here (tie-breaking is C08's subject)",
                      "an edge whose contributing adjacencies are partly direct and partly bypassing may or may not be marked residual",
-                     "granularities whose printable names identify entries (functions, filefunctions, lines); mean is covered by C04"])
+                     "granularities whose printable names identify entries (functions, filefunctions, lines); mean is covered by C04 except for call trees",
+                     "call trees (-dot -call_tree, trimmed in place by TrimTree): forests in which every function has one calling context, edge cutoff 0; the expectations are computed by the harness from the untrimmed real report (nearest shown caller, weight of the untrimmed edge into the entry, also under mean), not by TLC"])
 
 
 def why(ev):
